@@ -62,6 +62,9 @@ var progSpecs = []progSpec{
 	{"container/factory", "PostProcessorRegistrationDelegate", "ResolveBeforeInstantiation", "del_ResolveBeforeInstantiation"},
 	{"container/factory", "PostProcessorRegistrationDelegate", "applyPostProcessBeforeInstantiation", "del_applyBeforeInstantiation"},
 	{"container/factory", "PostProcessorRegistrationDelegate", "InvokeBeanFactoryPostProcessors", "del_InvokeBeanFactoryPostProcessors"},
+	{"container/processors", "dependencyAwarePostProcessors", "PostProcessProperties", "depAware_PostProcessProperties"},
+	{"container/processors", "dependencyFunctionAwarePostProcessors", "PostProcessProperties", "depFunc_PostProcessProperties"},
+	{"container/processors", "", "isActualKind", "isActualKind"},
 }
 
 // conversions whose single argument is passed through unchanged
